@@ -294,8 +294,51 @@ fn calls(stmts: &[Stmt], bind: Bind) -> bool {
     })
 }
 
+/// `UndefinedVariable`, variant: a procedure WITHOUT parameters and locals uses a name that is a
+/// parameter or local of another procedure (names local to another procedure are not visible).
+fn foreign_local_fault(s: &mut Src, base: &Prog) -> Option<Fault> {
+    let globals: Vec<&str> = base.types.iter().map(|t| t.name.as_str()).chain(base.procs.iter().map(|p| p.name.as_str())).collect();
+    let targets: Vec<usize> = (0..base.procs.len()).filter(|j| base.procs[*j].params.is_empty() && base.procs[*j].locals.is_empty() && base.order.contains(&Decl::Proc(*j))).collect();
+    if targets.is_empty() {
+        return None;
+    }
+    let p = targets[s.below(targets.len())];
+    let mut names: Vec<String> = Vec::new();
+    for (j, q) in base.procs.iter().enumerate() {
+        if j != p {
+            for v in q.params.iter().chain(q.locals.iter()) {
+                if !globals.contains(&v.name.as_str()) && !BUILTINS.iter().any(|(b, _)| *b == v.name) && v.name != "printi" {
+                    names.push(v.name.clone());
+                }
+            }
+        }
+    }
+    if names.is_empty() {
+        return None;
+    }
+    let n = names[s.below(names.len())].clone();
+    let mut prog = base.clone();
+    let stmt = Stmt::Call("printi".into(), Bind::BuiltinProc(0), vec![Expr::Var(Var::Name(n.clone(), Bind::Unbound))]);
+    let decl = prog.order.iter().position(|d| *d == Decl::Proc(p)).unwrap();
+    let pos = s.below(prog.procs[p].body.len() + 1);
+    prog.procs[p].body.insert(pos, stmt);
+    Some(Fault {
+        kind: "UndefinedVariable",
+        message: format!("undefined variable `{}`", n),
+        base: base.clone(),
+        prog,
+        locator: Locator::AnyOf(vec![vec![decl, 1 + pos, 1]]),
+        exact_token: true,
+    })
+}
+
 pub fn inject(s: &mut Src, base: &Prog, kind: usize) -> Option<Fault> {
     let name = KINDS[kind];
+    if name == "UndefinedVariable" && s.chance(1, 3) {
+        if let Some(f) = foreign_local_fault(s, base) {
+            return Some(f);
+        }
+    }
     let mut h = with_helpers(s, base, false)?;
     let base_with_helpers = h.prog.clone();
     let done = |prog: Prog, message: String, paths: Vec<Vec<usize>>, exact: bool| {
